@@ -1,6 +1,21 @@
 """Sidecar contracts on the real gemseo functions, one module per property (DESIGN.md §4)."""
 
 PROPS = {
+    "C18": {
+        "level_text": "Proof, for all real inputs (per component; sqrt/exp/log uninterpreted with the axioms stated in the contracts), that the seven RBF kernel "
+                      "derivative functions used by RBFRegressor.predict_jacobian are the derivatives d/dx_i phi(|x|) = phi'(r) x_i / r of the kernels that "
+                      "scipy.interpolate.Rbf evaluates (epsilon-scaled for multiquadric, inverse multiquadric and gaussian; unscaled for linear, cubic, quintic "
+                      "and thin plate), up to the documented TOL regularisation of the two guarded kernels.",
+        "level_note": "Partial: only the kernel derivative formulas. Trusted: pyvc, z3 (nonlinear reals), SciPy's kernel definitions (assumed from scipy.interpolate.Rbf), "
+                      "component-wise reading of the array expressions. Not covered: the 4-D broadcasting of _predict_jacobian, every other regressor, transformers, "
+                      "the surrogate discipline.",
+        "design_ref": "DESIGN.md §4 C18",
+        "modules": ["contracts.c18_surrogates"],
+        "assumptions": ["scipy.interpolate.Rbf kernels: multiquadric sqrt((r/eps)^2+1), inverse 1/sqrt((r/eps)^2+1), gaussian exp(-(r/eps)^2), linear r, cubic r^3, quintic r^5, thin_plate r^2 log r",
+                        "array expressions of the der_* functions act component-wise (numpy broadcasting)"],
+        "not_covered": ["RBFRegressor._predict_jacobian (axis bookkeeping)", "linear/polynomial/PCE/GP/MoE regressors", "transformers and pipelines", "SurrogateDiscipline",
+                        "interpolation of the learning data"],
+    },
     "C07": {
         "level_text": "Proof, for any number and sizes of functions / variables / couplings (unbounded, linear integer arithmetic), that the Jacobian "
                       "assembly places every existing partial Jacobian jac[f_a][v_b] at the prefix-sum offsets (off_r(a), off_c(b)), zeros elsewhere and "
@@ -288,14 +303,50 @@ PROPS = {
 }
 
 PROPS["C11"] = {
-    "level_text": "Proof, over an abstract model of the HDF node (groups = maps from names to datasets/sub-groups, datasets = resizable sequences; assumed "
-                  "h5py contracts), of the index bookkeeping of gemseo.algos._hdf_database.",
-    "level_note": "Trusted: pyvc, z3, the abstract h5py model pyvc/plug_hdf.py (assumed contracts A1-A15, each validated natively by tools/validate_h5py_model.py).",
+    "level_text": "PARTIAL. Proof, for every index, every set of output names/values (any mix of scalars and arrays) and every prior content of the node, of the "
+                  "index bookkeeping of the HDF WRITER primitives of gemseo.algos._hdf_database over an abstract model of the HDF node (a group = a map from "
+                  "names to datasets/sub-groups, a dataset = a resizable sequence; h5py operations have assumed contracts): __add_hdf_input_dataset, "
+                  "__add_hdf_name_output, __add_hdf_scalar_output, __add_hdf_vector_output, __add_hdf_output_dataset (both calling conventions; loop invariant: "
+                  "the names are appended to k/<i> in one duplicate-free order, every array value becomes v/arr_<i>/<position of its name in k/<i>>, the scalar "
+                  "values are appended to v/<i> in listing order = at the rank of their position among the scalar positions), "
+                  "__get_missing_hdf_output_dataset (exactly the unlisted names, positioned after the listed ones), __create_hdf_input_output, "
+                  "__append_hdf_output (exception condition, no-op case, frame; callee preconditions proved), add_pending_array (under an explicit "
+                  "hash-collision-freedom assumption). Induction lemmas for the recursive rank function and for filtered sub-sequences (what the reader "
+                  "computes). NOT proved in this build: to_file, update_from_file (contracts for the file invariant / reader are designed in "
+                  "contracts/c11_hdf_database.py - pt_wf/pt_is/fhas/fval - but the two functions are not yet verified against them), hence no end-to-end "
+                  "round-trip or 'append == single export' lemma; these are covered only by the bounded run-time stand-in below.",
+    "level_note": "Trusted: pyvc, z3, the abstract h5py model pyvc/plug_hdf.py (assumed contracts A1-A15, each validated against the real h5py by "
+                  "tools/validate_h5py_model.py), sorted() as a deterministic duplicate-free listing, float64 = reals, ASCII output names. "
+                  "The property is claimed at the level of the writer primitives only; DesignSpace / OptimizationProblem / HDF5Cache files are not under contract.",
     "design_ref": "DESIGN.md §4 C11",
     "modules": ["contracts.c11_hdf_database"],
     "runtime": "contracts.rt_c11",
-    "assumptions": [],
-    "not_covered": [],
+    "assumptions": [
+        "abstract HDF node (pyvc/plug_hdf.py): A1 File modes w/a/r and persistence of what was written; A2 require_group; A3 `in`/len of a group; A4 create_dataset "
+        "(ValueError on an existing name); A5 group[name] (KeyError); A6 names round trip through array(.., dtype=bytes_)/string_dtype/decode (ASCII names); "
+        "A7 resize + ds[offset:] = block appends; A8 TypeError on a block of another length; A9 sub-groups and items(); A10 require_group on a dataset name: TypeError; "
+        "A11 dataset iteration in order; A12 array(dataset) = stored content; A13 str(int) injective, int(str(i)) == i, 'arr_'+s injective and never decimal; "
+        "A15 get_hdf5_group - every one validated natively on h5py 3.11 by tools/validate_h5py_model.py",
+        "one node: all exports of a history go to the same file and node (history precondition; natively, alternating two files makes the reload raise KeyError)",
+        "history preconditions (derived from the call sites Database.store -> add_pending_array and to_file): between two exports to the same node the database only "
+        "grows - new points are appended, new names are added at existing points, no deletion / re-ordering / overwrite of an exported name "
+        "(Database.clear*, filter, remove_empty_entries, __delitem__ are excluded); stated as `requires` history:* of __get_missing_hdf_output_dataset / __append_hdf_output",
+        "ASSUMED explicitly (axiom of add_pending_array): hash(HashableNdarray) is collision free on the arrays of one history - the pending buffer is keyed by "
+        "hash(array); with a collision the earlier pending array is silently replaced and never exported (counter-model exists, not replayable with xxh3-64)",
+        "cited lemma (finite sets, assumed): the names of a finite map not in a duplicate-free list of some of its names are |map| - |list| many",
+        "output values: isinstance(value, (ndarray, list)) is the uninterpreted predicate is_arr(value); HDFDatabase.__to_real is the identity on real data; "
+        "sorted(names) is a deterministic duplicate-free listing of the set of names (alphabetical order not modelled)",
+    ],
+    "bounded_standins": [
+        "contracts/rt_c11.py (run: PYTHONPATH=/repo/src:/verif /venv/bin/python -m contracts.rt_c11 3): all sequences of length <= 3 (root node; <= 3 on a nested node) "
+        "over {store(p, block): 3 points x 4 output blocks mixing scalars, rank-1/rank-2 arrays and names sorting before/after exported ones; export; export-append} "
+        "with at least one export and at most two distinct points, on REAL h5py files in a tempfile directory: after every export Database.from_hdf(file) equals the "
+        "in-memory database (points in order, names, values), and at the end the incrementally appended file reloads to the same content as a single non-append "
+        "export. 2140 scenarios, 0 failures on the pinned tree (36 s). This stands in for the unproved to_file / update_from_file / round-trip clauses.",
+    ],
+    "not_covered": ["HDFDatabase.to_file and update_from_file (designed contracts not yet verified; bounded stand-in only)", "round-trip lemma and 'incremental append == single final export' lemma",
+                    "DesignSpace.to_hdf/from_hdf/to_csv/from_csv, OptimizationProblem.to_hdf/from_hdf, HDF5Cache", "HDF5 library / file-system behaviour, complex values (imaginary part dropped by __to_real), "
+                    "non-ASCII output names (numpy.array(.., dtype=bytes_) raises UnicodeEncodeError: export fails)", "hash collisions in the pending buffer"],
 }
 
 PROPS["C17"] = {
